@@ -40,7 +40,7 @@ from frappy.params import Parameter
 from frappy.protocol.messages import COMMANDREPLY, DESCRIPTIONREPLY, \
     DISABLEEVENTSREPLY, ENABLEEVENTSREPLY, ERRORPREFIX, EVENTREPLY, \
     HEARTBEATREPLY, IDENTREPLY, IDENTREQUEST, LOG_EVENT, LOGGING_REPLY, \
-    READREPLY, WRITEREPLY
+    READREPLY, REQUEST2REPLY, WRITEREPLY
 
 
 def make_update(modulename, pobj):
@@ -203,12 +203,15 @@ class Dispatcher:
         # XXX: ONLY ONE REQUEST (per dispatcher) AT A TIME
         with self._lock:
             action, specifier, data = msg
+            handler = None
             # special case for *IDN?
             if action == IDENTREQUEST:
                 action, specifier, data = '_ident', None, None
-
-            self.log.debug('Looking for handle_%s', action)
-            handler = getattr(self, f'handle_{action}', None)
+                handler = self.handle__ident
+            elif action in REQUEST2REPLY:
+                # only defined requests: '_ident' or 'request' are no actions
+                self.log.debug('Looking for handle_%s', action)
+                handler = getattr(self, f'handle_{action}', None)
 
             if handler:
                 return handler(conn, specifier, data)
